@@ -154,6 +154,38 @@ pub fn run_case(kind: &str, t: &mut Toks) -> String {
         }
         "tess" => crate::tess::run(t),
         "clip" => crate::clip::run(t),
+        "knn" => {
+            // knn <anchor:3> <width:3> <max_cell_width> <k> <n> <points:3n>
+            let anchor = t.v3();
+            let width = t.v3();
+            let mcw = t.f64();
+            let k = t.usize();
+            let n = t.usize();
+            let pts: Vec<DVec3> = (0..n).map(|_| t.v3()).collect();
+            let nn = hooks::space_knn(anchor, width, mcw, &pts, k);
+            format!("\"nn\":{}", json::arr(&nn, |v| json::us(v)))
+        }
+        "sphere" => {
+            // sphere <op> <n> <points:3n | spheres:4n>   op: welzl | epos6 | epos6s
+            let op = t.word().to_string();
+            let n = t.usize();
+            let (c, r) = match op.as_str() {
+                "welzl" => {
+                    let pts: Vec<DVec3> = (0..n).map(|_| t.v3()).collect();
+                    hooks::welzl(&pts)
+                }
+                "epos6" => {
+                    let pts: Vec<DVec3> = (0..n).map(|_| t.v3()).collect();
+                    hooks::epos6(&pts)
+                }
+                _ => {
+                    let sp: Vec<(DVec3, f64)> = (0..n).map(|_| (t.v3(), t.f64())).collect();
+                    hooks::epos6_spheres(&sp)
+                }
+            };
+            format!("\"center\":{},\"radius\":{}", json::v3(c), json::f(r))
+        }
+        "geom" => crate::geom::run(t),
         "nn" => {
             // nn <dim> <periodic> <width:3> <n> <gens:3n> <nq> <queries>  (width = the normalised width)
             let dim = t.dim();
